@@ -40,6 +40,17 @@ def handler : Handler := fun op args =>
       pure (match textContent cv tl tt c r with
         | .ok rows => fmtRows rows
         | .error e => fmtErr e)) args
+  | "contentat" => run (do
+      let curW ← int; let curH ← int
+      let cols ← int; let rows ← int; let imgCols ← int; let imgRows ← int
+      let hAlign ← pAlign; let vAlign ← pAlign
+      let tl ← int; let tt ← int; let c ← int; let r ← int
+      let lines ← pLines
+      let ws : WidgetState := { hAlign, vAlign, imageSize := (curW, curH) }
+      let cv : CanvasVal := { cols, rows, imgCols, imgRows, lines }
+      pure (match contentAt ws cv tl tt c r with
+        | .ok rows => fmtRows rows
+        | .error e => fmtErr e)) args
   | "gfx" => run (do
       let cols ← int; let rows ← int
       let tl ← int; let tt ← int; let c ← int; let r ← int
